@@ -14,6 +14,9 @@ import (
 // newRealRepo creates a scratch git repository under the run's work directory.
 func newRealRepo(c *runCtx, name string, bare bool) (*gitinterface.Repository, string, error) {
 	dir := filepath.Join(c.outDir, "repos", name)
+	if abs, err := filepath.Abs(dir); err == nil {
+		dir = abs
+	}
 	if err := os.MkdirAll(dir, 0o755); err != nil {
 		return nil, "", err
 	}
